@@ -305,8 +305,13 @@ def elem_value_of(t):
     t = versionless(t)
     path = []
     cur = t
-    while is_call(cur, ('unwrap_or_default', 'unwrap', 'expect', 'unwrap_or', 'unwrap_or_else')) and cur[2]:
-        cur = cur[2][0]
+    for _ in range(4):
+        if is_call(cur, ('unwrap_or_default', 'unwrap', 'expect', 'unwrap_or', 'unwrap_or_else')) and cur[2]:
+            cur = cur[2][0]
+        elif cur[0] == 'agg' and cur[1].endswith('option::Option') and cur[2] == 'Some' and cur[3]:
+            cur = versionless(cur[3][0][1])
+        else:
+            break
     for _ in range(6):
         e = elem_of(cur)
         if e and e[2] in ('value', 'key'):
